@@ -176,14 +176,14 @@ inductive Outcome (α : Type) where
   | hang      -- blocks forever
 deriving Repr
 
-/-- `compileBatches`: with `BatchNumParallel = 0` the `limiter` channel is unbuffered and its only
-receivers are the goroutines started *after* the send, so the first full batch blocks for ever. -/
-def compileBatches (batchSize batchNumParallel : Nat) (stream : Pairs) (order : List Pairs) :
+/-- `compileBatches`: `BatchNumParallel` only bounds how many batches are in flight (0 = no
+limiter since the repair; before it an unbuffered limiter blocked the first full batch for ever);
+the result is that of the batches in the order they obtain `writeMutex`. -/
+def compileBatches (_batchSize _batchNumParallel : Nat) (_stream : Pairs) (order : List Pairs) :
     Outcome KV :=
-  if batchNumParallel = 0 ∧ batchSize ≤ stream.length then .hang
-  else match runBatches order with
-    | .ok db => .ok db
-    | .error _ => .fail
+  match runBatches order with
+  | .ok db => .ok db
+  | .error _ => .fail
 
 /-! ### CDB -/
 
@@ -216,7 +216,7 @@ def compileBuilder (lines : List LineOut) (sorted : Pairs) (minBucketSize maxBuc
 def compileBatchesFull (lines : List LineOut) (batchSize batchNumParallel : Nat) (stream : Pairs)
     (order : List Pairs) (arrived : Nat) : Outcome KV :=
   match acceptAll lines with
-  | none => if batchNumParallel = 0 ∧ batchSize ≤ arrived then .hang else .fail
+  | none => let _ := arrived; .fail
   | some _ => compileBatches batchSize batchNumParallel stream order
 
 /-- `cdb.CreateCDB`: the result is the record list in arrival order -/
